@@ -14,6 +14,7 @@
  *       F <k> <errno>    the k-th interposed file-system call from now on fails with errno
  *       R                clean shutdown (final checkpoint) and start of a new daemon on the same spool
  *       L                list spool files (name: UIDs)
+ *       N <k> [i…]       k clients connect, those listed hang up, as many connect again: the connection slots handed out
  * every OP answers with one `[…]` group; a died process is reported as `[CRASH]` and a new daemon is
  * started on the same spool directory for the remaining OPs. */
 #define _GNU_SOURCE
@@ -31,6 +32,14 @@
 #include <sys/syscall.h>
 #include <sys/wait.h>
 #include <sys/types.h>
+
+#if defined VERIF_GCOV
+/* development aid: the daemon processes leave through exit_group(2), hand the line counters over first */
+extern void __gcov_dump(void);
+# define HX_GCOV_DUMP()	__gcov_dump()
+#else
+# define HX_GCOV_DUMP()	((void)0)
+#endif
 
 /* ---------------------------------------------------------------- output of the current op */
 static char obuf[1 << 20];
@@ -66,7 +75,7 @@ static int fs_gate(long uid, char kind)
 	size_t tl = strlen(fs_trace);
 	if (tl + 2 < sizeof(fs_trace) && !(kind == 'w' && tl && fs_trace[tl - 1] == 'w')) { fs_trace[tl] = kind; fs_trace[tl + 1] = 0; }
 	if (uid == cut_uid && kind == cut_kind) {
-		syscall(SYS_exit_group, 77);
+		HX_GCOV_DUMP(), syscall(SYS_exit_group, 77);
 	}
 	if (uid == flt_uid && kind == flt_kind) {
 		flt_uid = -1;
@@ -429,6 +438,37 @@ static void do_op(char *op)
 		fs_armed = 0;
 		out("c");
 		cut_uid = -1; flt_uid = -1;
+	} else if (!strcmp(a[0], "N") && n >= 2) {
+		/* N k[,free,...] : k clients connect (make_conn), then the listed ones (by order of connecting, 0-based) hang
+		 * up (free_conn) and as many connect again; answer: per connection the slot it got, `-' for none,
+		 * `!' appended when that slot was in use at the time */
+		static struct echs_conn_s *got[256];
+		static char used[MAX_CONNS];
+		int k = atoi(a[1]), ng = 0;
+		memset(used, 0, sizeof(used));
+		for (int i = 0; i < k && ng < 256; i++) {
+			struct echs_conn_s *c = make_conn();
+			got[ng++] = c;
+			if (c == NULL) { out("%s-", i ? "," : ""); continue; }
+			out("%s%d%s", i ? "," : "", (int)(c - conns), used[c - conns] ? "!" : "");
+			used[c - conns] = 1;
+		}
+		int nfree = 0;
+		for (int j = 2; j < n; j++) {
+			int x = atoi(a[j]);
+			if (x >= 0 && x < ng && got[x] != NULL && used[got[x] - conns]) {
+				used[got[x] - conns] = 0; free_conn(got[x]); got[x] = NULL; nfree++;
+			}
+		}
+		for (int i = 0; i < nfree && ng < 256; i++) {
+			struct echs_conn_s *c = make_conn();
+			got[ng++] = c;
+			if (c == NULL) { out(",-"); continue; }
+			out(",%d%s", (int)(c - conns), used[c - conns] ? "!" : "");
+			used[c - conns] = 1;
+		}
+		/* hang up all */
+		for (int i = 0; i < ng; i++) if (got[i] != NULL && used[got[i] - conns]) { used[got[i] - conns] = 0; free_conn(got[i]); }
 	} else if (!strcmp(a[0], "Ctrace")) {
 		/* checkpoint and report the shape of the interposed calls (not compared with the model) */
 		fs_armed = 1; fs_trace[0] = 0;
@@ -448,7 +488,7 @@ static void do_op(char *op)
 		chkpnt();          /* what free_echsd() does first */
 		fs_armed = 0;
 		printf("[r]"); fflush(stdout);
-		syscall(SYS_exit_group, 78);
+		HX_GCOV_DUMP(), syscall(SYS_exit_group, 78);
 	} else {
 		out("bad-op");
 	}
@@ -501,7 +541,7 @@ int main(int argc, char **argv)
 					if (tmp[0] != 'R') { printf("[%s]", obuf); }
 				}
 				fflush(stdout);
-				syscall(SYS_exit_group, 0);
+				HX_GCOV_DUMP(), syscall(SYS_exit_group, 0);
 			}
 			syscall(SYS_close, pfd[1]);
 			static char got[1 << 21]; ssize_t m = 0, k;
